@@ -240,7 +240,7 @@ func (c *EvalCtx) object(o types.Object) EV {
 		sp := fr.R.Eng.Prog.Package(o.Pkg())
 		if sp != nil {
 			if g, ok := sp.Members[o.Name()].(*ssa.Global); ok {
-				l := &Loc{Kind: LGlobal, Glob: g, Type: o.Type(), Const: !fr.R.Eng.mutableGl[g]}
+				l := &Loc{Kind: LGlobal, Glob: g, Type: o.Type(), Const: !fr.R.Eng.mutableGl[g] && !fr.R.inInit}
 				return EV{T: fr.load(l), Ty: o.Type()}
 			}
 		}
